@@ -305,7 +305,7 @@ def _p1_event(vc):
     touches = [ev[1] for ev in tr if ev[0] == 'touch']
     vc.ensure('event.wakeup', len(calls) == 1 and len(sleeps) == 1 and len(touches) <= 1)
     vc.ensure('event.wakeup', calls[0][3] is pressure)
-    _, m, _, unslept, kind = sleeps[0]
+    _, m, _, unslept, kind = sleeps[0][:5]
     t_call = calls[0][1]
     ens('event.wakeup', Implies(Not(blocked), Eq(m, 0)))
     ens('event.wakeup', Implies(blocked, And(recs.forall(lambda i: Implies(s_blocking(i), t_call + m <= s_deadline(i))),
@@ -564,6 +564,7 @@ def _p2_keepalive(vc):
 @harness('P2', targets=['kopf._core.engines.peering.touch', 'kopf._core.engines.peering.keepalive',
                         'kopf._core.engines.peering.clean'],
          props=['C13', 'C20'],
+         clause_props={'keepalive.interval_lt_lifetime': ['C13'], 'keepalive.interval_at_least_1s': ['C13']},
          clauses=['touch.one_request', 'touch.zero_lifetime_removes', 'touch.renewal_payload', 'touch.failures_propagate',
                   'clean.removes_exactly_given', 'clean.failures_propagate',
                   'keepalive.renews_then_sleeps', 'keepalive.interval_at_least_1s', 'keepalive.interval_lt_lifetime',
